@@ -68,12 +68,20 @@ def impl(op, a, ctx):
     from bitcoinutils.script import Script
     if op == 'seq':
         s = Sequence(int(a[0]), int(a[1]), a[2] == '1')
-        x = s.for_input_sequence()
-        try:
-            n = str(s.for_script())
-        except ValueError:
-            n = 'err'
-        return f'ok {hx(x) if x is not None else "none"} {n}'
+        def fs():
+            try: return str(s.for_script())
+            except ValueError: return 'err'
+        def fi():
+            x = s.for_input_sequence(); return hx(x) if x is not None else 'none'
+        # the same object asked in a pseudo-random order and repeatedly: the answers must not depend on it
+        order = (int(a[1]) + int(a[2])) % 3
+        if order == 0: x = fi(); n = fs()
+        elif order == 1: n = fs(); x = fi()
+        else:
+            fi(); n0 = fs(); x = fi(); n = fs()
+            if n != n0: n = 'script-number-changed'
+        if fi() != x: x = 'input-sequence-changed'
+        return f'ok {x} {n}'
     if op == 'locktime':
         return 'ok ' + hx(Locktime(int(a[0])).for_transaction())
     if op == 'push_int':
